@@ -36,9 +36,9 @@ Oracle decisions (weaker reading where the statement is silent or ambiguous):
 * two    — two packages handled in ONE process by one `_exec` call (no fork in between), preceded by a
   primer P0 (a no-core deck that gains a default part on which all 15 properties are set, so that the
   case is self-contained and replays identically in a fresh process): open A, assign batch A; open B:
-  B's fresh readings must be the documented defaults of CorePropertiesPart.default (title 'PowerPoint
-  Presentation', last_modified_by 'python-pptx', revision 1, modified = the harness's fixed clock, the
-  rest ''/None) when B has no core part, else what the same file reads when opened before anything else;
+  B's fresh readings must be those of a default part gained in a pristine process (differential: the first
+  default part a forked child reads before any history; modified = the harness's fixed clock) when B has no
+  core part, else what the same file reads when opened before anything else;
   A's readings must not move when B is opened nor when B is assigned; B's must not move when A is
   assigned again; both are saved and re-opened. Modes: `overlap` (A alive while B is used) and
   `sequential` (A saved and dropped before B is opened, A re-opened at the end). Bases x bases x modes
@@ -95,8 +95,8 @@ ASSUMPTIONS = [
     "XML line-end normalisation of CR after save/re-open is tolerated (and only that)",
     "histories are bounded to 2 assignments and 2 save/re-open cycles (quick-tier ordered pairs: 1 cycle); "
     "two-packages histories: primer + 2 packages, fixed assignment batches",
-    "the documented defaults of a default core-properties part (CorePropertiesPart.default docstring/body: title, "
-    "last_modified_by, revision 1, modified = now) are taken as the meaning of 'gains a default part'",
+    "'gains a default part': the readings of the first default part in a pristine process are the reference for every "
+    "later default part (no particular default values are demanded)",
 ]
 
 STRING_PROPS = ["author", "category", "comments", "content_status", "identifier", "keywords", "language",
@@ -525,14 +525,45 @@ def _clock_installed():
         return False
 
 
+_PRISTINE = None
+
+
 def documented_defaults():
-    """Readings of a default core-properties part per CorePropertiesPart.default's documentation."""
-    from mc.core import clock
-    exp = {p: "" for p in STRING_PROPS}
-    exp.update({"created": None, "last_printed": None, "revision": 1,
-                "title": "PowerPoint Presentation", "last_modified_by": "python-pptx",
-                "modified": clock.FIXED.replace(tzinfo=None) if _clock_installed() else "ANY-DATETIME"})
-    return exp
+    """Readings of a default core-properties part: what the SAME library reads from the part a no-core package
+    gains when that is the first thing a process does (computed once, in a forked child of a process that has not
+    run the library yet; workers inherit the result). The statement promises 'gains a default part', not particular
+    default values, so the reference is differential: a later default part in a process with a history must read what
+    the first one in a pristine process reads ('modified' is the harness's fixed clock in both)."""
+    global _PRISTINE
+    if _PRISTINE is None:
+        import pickle
+        r, w = os.pipe()
+        pid = os.fork()
+        if pid == 0:
+            code = 0
+            try:
+                os.close(r)
+                from pptx import Presentation
+                got = read_all(Presentation(io.BytesIO(base_bytes("minimal-nocore"))).core_properties)
+                with os.fdopen(w, "wb") as f:
+                    pickle.dump(got, f)
+            except BaseException:  # noqa: BLE001
+                code = 1
+            os._exit(code)
+        os.close(w)
+        with os.fdopen(r, "rb") as f:
+            data = f.read()
+        os.waitpid(pid, 0)
+        if not data:
+            raise HarnessError("could not read a pristine default core-properties part")
+        got = pickle.loads(data)
+        if not _clock_installed():
+            got["modified"] = "ANY-DATETIME"
+        # sanity (keeps the reference from being vacuous): a default part has a revision and a modified stamp
+        if not isinstance(got.get("revision"), int) or got.get("modified") is None:
+            raise HarnessError("pristine default part reads %r" % (got,))
+        _PRISTINE = got
+    return dict(_PRISTINE)
 
 
 def _diff(expected, got):
@@ -584,7 +615,7 @@ def _exec_two(case, rec):
         if d:
             rec.v("C18|two|fresh-part-not-default|%s" % tag,
                   "after every property was set on the default part of no-core package P0, the default part gained by "
-                  "package A (%s) does not read the documented defaults: %s" % (a, "; ".join(d)))
+                  "package A (%s) does not read what a default part reads in a pristine process: %s" % (a, "; ".join(d)))
     last_a = {}
     _apply_ops(rec, cp_a, model_a, case["opsA"], last_a)
     saved_a = None
@@ -612,7 +643,7 @@ def _exec_two(case, rec):
         rec.v("C18|two|%s|%s" % (rule, tag),
               "after %s on package A (%s), the core properties of freshly opened package B (%s) are not %s: %s" % (
                   ["%s=%s" % (p, short(make_value(sp), 30)) for p, sp in case["opsA"]], a, b,
-                  "the documented defaults" if b in NOCORE_BASES else "what the same file reads when opened alone",
+                  "what a default part reads in a pristine process" if b in NOCORE_BASES else "what the same file reads when opened alone",
                   "; ".join(d)))
     a_unchanged("A-changed-by-B-open", "package B (%s) was opened and its core properties accessed" % b)
     last_b = {}
@@ -1005,6 +1036,7 @@ def run(ctx):
     t_cases = two_cases(ctx.thorough)
     cases = ctx.rotate(a_cases + r_cases + y_cases + c_cases + t_cases)
 
+    ctx.extra["pristine_default_part_readings"] = {k: repr(v) for k, v in documented_defaults().items() if v not in ("", None)}
     fanout(ctx, _worker, cases, chunk_size=max(1, len(cases) // 256))
 
     exp_eval = len(a_cases) + len(r_cases) + 3 * 9999 + len(c_cases) + len(t_cases)
